@@ -141,6 +141,24 @@ def loader_files(d, hexasm):
     return out
 
 
+# --------------------------------------------------------------------------- runs under load: a timeout is not a result
+def retrying(ck, factor=3):
+    """run3 with one retry: a run that hits its time limit (rc 124) is inconclusive -- the machine may be loaded -- and is run
+    once more with a longer limit; only if it times out again is it reported (as a run that does not terminate)"""
+    def run(cmd, timeout=60, cwd=None, env=None, input=None, stdin=None):
+        path = getattr(stdin, 'name', None) if stdin is not None else None
+        rc, o, e = vlib.run3(cmd, timeout=timeout, cwd=cwd, env=env, input=input, stdin=stdin)
+        if rc != 124:
+            return rc, o, e
+        ck.cov['timeouts_retried'] = ck.cov.get('timeouts_retried', 0) + 1
+        s2 = open(path, 'rb') if isinstance(path, str) else None
+        rc, o, e = vlib.run3(cmd, timeout=timeout * factor, cwd=cwd, env=env, input=input, stdin=s2)
+        if rc == 124:
+            ck.broken.append('a run does not terminate within %d s (timed out twice): %s' % (timeout * factor, ' '.join(str(c) for c in cmd)[:300]))
+        return rc, o, e
+    return run
+
+
 if __name__ == '__main__':
     print(build_hextb())
     print(build_tb_harness())
